@@ -116,9 +116,10 @@ def run_crosshair(fn, timeout, per_path_timeout):
     return res
 
 
-def main():
-    req = json.loads(sys.stdin.read())
-    sys.setrecursionlimit(10000)
+def handle(req, state):
+    from vlib import w as W
+
+    W.TWIN = req.get("twin")
     try:
         mod = importlib.import_module(req["module"])
         factory = getattr(mod, req["factory"])
@@ -130,27 +131,40 @@ def main():
                 try:
                     out = fn(**cex)
                     if out is False:
-                        emit({"status": "reproduced", "detail": "harness assertion False on the unpatched code with concrete inputs"})
-                    else:
-                        emit({"status": "not_reproduced", "detail": f"returned {out!r}"})
+                        return {"status": "reproduced", "detail": "harness assertion False on the unpatched code with concrete inputs"}
+                    return {"status": "not_reproduced", "detail": f"returned {out!r}"}
                 except Exception as e:  # noqa
                     tb = traceback.format_exc()[-800:]
-                    emit({"status": "reproduced", "detail": f"raised {type(e).__name__}: {e}", "traceback": tb})
-                return
-            if hasattr(mod, "setup_symbolic"):
+                    return {"status": "reproduced", "detail": f"raised {type(e).__name__}: {e}", "traceback": tb}
+            if hasattr(mod, "setup_symbolic") and not state.get("setup_done"):
                 mod.setup_symbolic()
+                state["setup_done"] = True
             fn = factory(**req["args"])
-            emit(run_crosshair(fn, req["timeout"], req.get("per_path_timeout")))
-        else:  # direct: the factory itself talks to the solver
-            if plain:
-                out = factory(**req["args"], _replay=req["replay"])
-            else:
-                t0 = time.process_time()
-                out = factory(**req["args"])
-                out.setdefault("solver_s", round(time.process_time() - t0, 2))
-            emit(out)
+            return run_crosshair(fn, req["timeout"], req.get("per_path_timeout"))
+        # direct: the factory itself talks to the solver
+        if plain:
+            return factory(**req["args"], _replay=req["replay"])
+        t0 = time.process_time()
+        out = factory(**req["args"])
+        out.setdefault("solver_s", round(time.process_time() - t0, 2))
+        return out
     except BaseException as e:  # noqa
-        emit({"status": "inconclusive", "detail": f"worker exception {type(e).__name__}: {e}\n" + traceback.format_exc()[-1500:]})
+        return {"status": "inconclusive", "detail": f"worker exception {type(e).__name__}: {e}\n" + traceback.format_exc()[-1500:]}
+
+
+def main():
+    req = json.loads(sys.stdin.read())
+    sys.setrecursionlimit(10000)
+    state = {}
+    if "batch" in req:
+        for i, r in enumerate(req["batch"]):
+            t0 = time.time()
+            out = handle(r, state)
+            out["wall_s"] = round(time.time() - t0, 2)
+            sys.stdout.write("\n@@RESULT " + json.dumps({"i": i, "out": out}, default=str) + "\n")
+            sys.stdout.flush()
+    else:
+        emit(handle(req, state))
 
 
 if __name__ == "__main__":
